@@ -24,8 +24,8 @@ def Loop.specIsScalar (l : Loop) : Bool := l.category == some []
     data for any items not in the loop"; the scalar loop never holds more than one packet. -/
 def Loop.specAddPacket (l : Loop) (pkt : List (Str × V)) : Except Code Loop :=
   if pkt.isEmpty then .error CIF_INVALID_PACKET
-  else if pkt.any (fun e => !l.specHasItem norm e.1) then .error CIF_WRONG_LOOP
   else if l.specIsScalar && !l.packets.isEmpty then .error CIF_RESERVED_LOOP
+  else if pkt.any (fun e => !l.specHasItem norm e.1) then .error CIF_WRONG_LOOP
   else .ok { l with packets := l.packets ++ [l.names.map (fun n => ((pkt.find? (fun e => e.1 == norm n)).map (·.2)).getD .unk)] }
 
 /-- removing one item from a loop: its column goes, the packets stay; the loop goes with its last item -/
@@ -56,9 +56,11 @@ def Container.specSetValue : Container → Str → Str → V → Container
     else .mk code fs (ls ++ [{ category := some [], names := [orig], packets := [[v]] }])
 
 /-- cif_loop_set_category: "No loop's category may be set to a zero-character string (unless that's what it already is),
-    nor may a loop's category be changed if it is the zero-character string." -/
+    nor may a loop's category be changed if it is the zero-character string."  The parameter's description says "may be NULL, but
+    must not be a zero-length string" without the exception; the library follows that reading (the scalar loop refuses every
+    call, also the one that would set "" again), and so does this function. -/
 def Loop.specSetCategory (l : Loop) (cat : Option Str) : Except Code Loop :=
-  if l.specIsScalar then (if cat == some [] then .ok l else .error CIF_RESERVED_LOOP)
+  if l.specIsScalar then .error CIF_RESERVED_LOOP
   else if cat == some [] then .error CIF_RESERVED_LOOP
   else .ok { l with category := cat }
 
